@@ -42,6 +42,7 @@ struct RunObs {
     check_diags: Vec<String>,
     panicked: Option<String>,
     perm_fired: bool,
+    stderr_tail: String,
 }
 
 fn run_pair(w: &mut World, v: &Variant) -> Result<RunObs, String> {
@@ -61,6 +62,9 @@ fn run_pair(w: &mut World, v: &Variant) -> Result<RunObs, String> {
         }
         let mut diags = world::parse_diags(&out.stderr, &w.prj);
         diags.dedup();
+        if out.exit != Some(0) {
+            o.stderr_tail = format!("{args:?}: {}", hist::tail(&out.stderr, 700));
+        }
         if i == 0 {
             o.build_exit = out.exit;
             o.build_diags = diags;
@@ -137,7 +141,7 @@ pub fn run(sc: &C24Scenario) -> Result<Outcome, String> {
     let mut viol = None;
     let mut known: Option<(String, String)> = None;
     if v.build_exit != r.build_exit || v.check_exit != r.check_exit {
-        viol = Some(("exit".to_string(), format!("build/check exit {:?}/{:?} but reference order and seed give {:?}/{:?}", v.build_exit, v.check_exit, r.build_exit, r.check_exit)));
+        viol = Some(("exit".to_string(), format!("build/check exit {:?}/{:?} but reference order and seed give {:?}/{:?}; {}", v.build_exit, v.check_exit, r.build_exit, r.check_exit, v.stderr_tail)));
     } else if v.check_diags != r.check_diags || v.build_diags != r.build_diags {
         viol = Some(("diagnostics-set".to_string(), format!("diagnostics set differs: {:?} vs reference {:?}", v.check_diags.iter().map(|d| d.lines().next().unwrap_or("").to_string()).collect::<Vec<_>>(), r.check_diags.iter().map(|d| d.lines().next().unwrap_or("").to_string()).collect::<Vec<_>>())));
     } else {
@@ -205,6 +209,16 @@ pub fn run(sc: &C24Scenario) -> Result<Outcome, String> {
                             known.get_or_insert(("output-order:mixin-modport-default-order".to_string(), format!("{rel}: only the member order inside modport lists differs from the reference bundle")));
                             continue;
                         }
+                        // the recorded inferred-width dependence: same lines once `[N-1:0]` is masked
+                        let masked = |x: &[u8]| {
+                            let mut l: Vec<String> = String::from_utf8_lossy(x).lines().map(widths_masked).collect();
+                            l.sort();
+                            l
+                        };
+                        if sc.project.files.values().any(|t| t.contains("param ") && has_untyped_let(t)) && masked(d) == masked(data) {
+                            known.get_or_insert(("output-order:inferred-width-of-overridden-parameter".to_string(), format!("{rel}: only an inferred width differs from the reference bundle")));
+                            continue;
+                        }
                         viol = Some(("bundle-content".to_string(), format!("{rel}: line multiset differs from the reference bundle")));
                         break;
                     }
@@ -228,6 +242,27 @@ pub fn run(sc: &C24Scenario) -> Result<Outcome, String> {
         }
     }
     Ok(Outcome { violation: viol.or(known), skipped: None, perm_fired: v.perm_fired })
+}
+
+/// `[<digits>-1:0]` -> `[#-1:0]`
+fn widths_masked(t: &str) -> String {
+    let mut out = String::new();
+    let mut rest = t;
+    while let Some(i) = rest.find('[') {
+        out.push_str(&rest[..=i]);
+        rest = &rest[i + 1..];
+        let digits = rest.chars().take_while(|c| c.is_ascii_digit()).count();
+        if digits > 0 && rest[digits..].starts_with("-1:0]") {
+            out.push('#');
+            rest = &rest[digits..];
+        }
+    }
+    out.push_str(rest);
+    out
+}
+
+fn has_untyped_let(src: &str) -> bool {
+    src.lines().any(|l| l.trim_start().strip_prefix("let ").is_some_and(|r| r.split('=').next().is_some_and(|lhs| !lhs.contains(':'))))
 }
 
 /// Lines of an emitted text with the members of every `modport X ( ... );` list sorted and
@@ -289,24 +324,7 @@ fn known_order_shape(rel: &str, got: &[u8], want: &[u8], project: &Project) -> O
     if src.contains("mixin ") && src.contains("..") && modports_sorted(&a) == modports_sorted(&b) {
         return Some("mixin-modport-default-order");
     }
-    // `[<digits>-1:0]` -> `[#-1:0]`
-    let widths_masked = |t: &str| {
-        let mut out = String::new();
-        let mut rest = t;
-        while let Some(i) = rest.find('[') {
-            out.push_str(&rest[..=i]);
-            rest = &rest[i + 1..];
-            let digits = rest.chars().take_while(|c| c.is_ascii_digit()).count();
-            if digits > 0 && rest[digits..].starts_with("-1:0]") {
-                out.push('#');
-                rest = &rest[digits..];
-            }
-        }
-        out.push_str(rest);
-        out
-    };
-    let untyped_let = src.lines().any(|l| l.trim_start().strip_prefix("let ").is_some_and(|r| r.split('=').next().is_some_and(|lhs| !lhs.contains(':'))));
-    if src.contains("param ") && untyped_let && widths_masked(&a) == widths_masked(&b) {
+    if src.contains("param ") && has_untyped_let(src) && widths_masked(&a) == widths_masked(&b) {
         return Some("inferred-width-of-overridden-parameter");
     }
     None
@@ -341,6 +359,13 @@ pub fn gen_project(seed: u64) -> Project {
         g.project.files.insert("src/sub_plain.veryl".into(), "module SubPlain (\n    i_d: input  logic<8>,\n    o_d: output logic<8>,\n) {\n    let t: logic<8> = i_d;\n    let u = t;\n    assign o_d = u;\n}\n".into());
         g.project.files.insert("src/wrap_g.veryl".into(), "module WrapG::<W: u32> (\n    i_d: input  logic<8>,\n    o_d: output logic<8>,\n    o_w: output logic<W>,\n) {\n    inst u_sub: SubPlain (\n        i_d: i_d,\n        o_d: o_d,\n    );\n    assign o_w = 0;\n}\n".into());
         g.project.files.insert("src/wrap_top.veryl".into(), "module WrapTop (\n    i_d: input  logic<8>,\n    o_d: output logic<8>,\n    o_w: output logic<4>,\n) {\n    inst u_wrap: WrapG::<4> (\n        i_d: i_d,\n        o_d: o_d,\n        o_w: o_w,\n    );\n}\n".into());
+    }
+    // A modport that copies (`..same`) a modport of a mixed-in interface of another file which
+    // itself has a default: the copied members exist only once the mixed-in interface has been
+    // resolved, whatever the order.
+    if rng.chance(1, 5) {
+        g.project.files.insert("src/a_src_if.veryl".into(), "interface SrcIf {\n    var x : logic;\n    var x2: logic;\n    modport mp_x {\n        ..input\n    }\n}\n".into());
+        g.project.files.insert("src/m_host_if.veryl".into(), "interface HostIf {\n    mixin SrcIf;\n    var y: logic;\n    modport mp {\n        y: output,\n        ..same(mp_x)\n    }\n}\nmodule HostUser (\n    p: modport HostIf::mp,\n) {\n    assign p.y = p.x & p.x2;\n}\n".into());
     }
     // A parameterised module with an inferred-type declaration, instantiated with an overridden
     // parameter from another file: the resolved type of the declaration must not be the one of
